@@ -36,7 +36,9 @@ import os
 import random
 import re
 import shutil
+import signal
 import time
+from contextlib import contextmanager
 from concurrent.futures import ThreadPoolExecutor
 
 from ..common import Run, digest
@@ -233,6 +235,15 @@ class SResp:
         return out
 
 
+class _Silent:
+    """The server wrote nothing (only acceptable when the client went away)."""
+    cond = 'NONE'
+    code = None
+    code_args: list = []
+    data: list = []
+    text = None
+
+
 # --------------------------------------------------------------------------
 # concretisation: abstract names / contents -> bytes
 
@@ -264,7 +275,7 @@ CONTENT_FAMILIES = {
              '/* фильтр */ discard;'.encode(), b'\xff\xfe\x00binary'),
     'sized': (b'# ' + b'x' * 3000 + b'\r\nkeep;\r\n',
               b'#' + b'y' * 4088 + b'\r\nstop;', b'z' * 2000),
-    'near': (b'keep;\r\n', b'keep;\r\n ', b'keep'),
+    'near': (b'keep;\r\n', b'keep;\r\n ', b'keep; }'),
     'nested': (b'if anyof (true, false) { if not true { stop; } else { keep; } }',
                b'require "reject"; if size :over 1M { reject "big"; }',
                b'if { }'),
@@ -274,7 +285,7 @@ CONTENT_STRESS = {
     'litmark': (b'keep; # {3+}', b'stop;\r\n# {0+}', b'{1+}'),
     'midmark': (b'# {5+}\r\nkeep;\r\n', b'# {3}\r\nstop;', b'{5+}\r\n'),
     'crlfend': (b'keep;\r\n\r\n', b'stop;\r', b'nope\r\n'),
-    'respish': (b'# OK\r\nkeep;', b'# NO (ACTIVE) "x"\r\nOK\r\n#\r\nstop;', b'OK\r\n'),
+    'respish': (b'# OK\r\nkeep;', b'# NO (ACTIVE) "x"\r\n# OK\r\nstop;', b'OK\r\n'),
     'empty': (b'', b' ', b'\x00'),
 }
 
@@ -307,6 +318,27 @@ def _txt(b: bytes, limit: int = 400) -> str:
     return s if len(s) <= limit else s[:limit] + f'...(+{len(s) - limit})'
 
 
+class Spinning(BaseException):
+    """Raised by the CPU-time watchdog inside whatever is running (normally the
+    server coroutine that loops without ever suspending)."""
+
+
+@contextmanager
+def watchdog(cpu_seconds: float):
+    """One step of a session costs about a millisecond of CPU; ITIMER_VIRTUAL
+    counts only this process's own user time, so load on the machine cannot
+    trip it."""
+    def handler(_sig, _frm):
+        raise Spinning()
+    old = signal.signal(signal.SIGVTALRM, handler)
+    signal.setitimer(signal.ITIMER_VIRTUAL, cpu_seconds)
+    try:
+        yield
+    finally:
+        signal.setitimer(signal.ITIMER_VIRTUAL, 0)
+        signal.signal(signal.SIGVTALRM, old)
+
+
 class Finding(dict):
     """level: 'violation' | 'drift'; fatal: the execution cannot go on"""
 
@@ -320,8 +352,9 @@ class Finding(dict):
 
 class Exec:
 
-    def __init__(self, seed, name_fam=None, cont_fam=None, enc='mixed'):
+    def __init__(self, seed, name_fam=None, cont_fam=None, enc='mixed', force_drop=None):
         self.rng = random.Random(seed)
+        self.force_drop = force_drop
         rng = self.rng
         self.name_fam = name_fam or rng.choice(sorted(NAME_FAMILIES))
         self.cont_fam = cont_fam or rng.choice(sorted(CONTENT_FAMILIES))
@@ -339,6 +372,9 @@ class Exec:
                        users={u: p for u, p in USERS.values()})
         self.log: list = []        # (conn, sent, received)
         self.nsteps = 0
+        self._literals: list = []
+        self.hung: set = set()     # connections that did not answer
+        self.poisoned = False      # the watchdog fired outside a server task
         self.boot: list = []
         for c in MCONNS:
             self._open(c)
@@ -351,7 +387,17 @@ class Exec:
                 self.boot.append(f'probe login {p}: {out!r}')
 
     def close(self):
-        self.w.close()
+        # never feed EOF to a session that is stuck inside a command: cancel it
+        for c, conn in self.w.conns.items():
+            if (c in self.hung or self.poisoned) and conn.task is not None and not conn.done:
+                conn.task.cancel()
+        try:
+            with watchdog(3.0):
+                for c in list(self.w.conns):
+                    self.w.run(c)
+                self.w.close()
+        except Spinning:
+            pass
 
     # -- transport -----------------------------------------------------------
 
@@ -366,11 +412,41 @@ class Exec:
         except Malformed as exc:
             self.boot.append(f'greeting of {c} malformed ({exc}): {g!r}')
 
-    def _tx(self, c, data: bytes) -> bytes:
-        self.w.send(c, data)
-        out = self.w.conns[c].take()
+    def _tx(self, c, data: bytes, cpu: float = 2.0) -> bytes:
+        try:
+            with watchdog(cpu):
+                self.w.send(c, data)
+        except Spinning:
+            self.poisoned = True
+            raise
+        conn = self.w.conns[c]
+        out = conn.take()
         self.log.append((c, data, out))
+        if conn.done and conn.outcome() == ('exc', 'Spinning()'):
+            raise Spinning()       # landed in the server task and ended it
         return out
+
+    def _drop(self, c, prefix: bytes, cpu: float = 0.15):
+        """Feed an incomplete command, then end of stream.  -> (bytes written
+        by the server, spinning?)"""
+        conn = self.w.conns[c]
+        if prefix:
+            self._tx(c, prefix)
+        spinning = False
+        try:
+            with watchdog(cpu):
+                conn.eof()
+                self.w.run(c)
+        except Spinning:
+            # the exception normally lands in the spinning server task and ends it
+            spinning = True
+            if not conn.done:
+                self.poisoned = True
+        if conn.done and conn.outcome() == ('exc', 'Spinning()'):
+            spinning = True        # landed in the server task and ended it
+        out = conn.take()
+        self.log.append((c, prefix + b'<EOF>', out))
+        return out, spinning
 
     # -- encoding ------------------------------------------------------------
 
@@ -439,6 +515,35 @@ class Exec:
         else:
             raise ValueError(cmd)
         return body + b'\r\n'
+
+    def drop_prefix(self, how=None):
+        """An incomplete command: (kind of cut, bytes)."""
+        rng = self.rng
+        N, C = self.names, self.conts
+        how = how or rng.choices(('line', 'marker', 'literal', 'marker0'),
+                                 (40, 30, 25, 5))[0]
+        n = N[rng.choice(('n1', 'n2'))]
+        body = C[rng.choice(('s1', 's2', 'bad'))] or b'keep;'
+        if how == 'line':
+            full = rng.choice([
+                b'PUTSCRIPT "x" "keep;"', b'GETSCRIPT ' + self.enc(n), b'LISTSCRIPTS',
+                b'DELETESCRIPT "' + b'x' * 20 + b'"', b'AUTHENTICATE "PLAIN"', b'LOGOUT',
+                b'SETACTIVE ""', b'NOOP']) + b'\r\n'
+            first = full.index(b'\n')
+            return how, full[:rng.randint(1, first)]
+        if how == 'marker0':
+            return how, rng.choice([b'SETACTIVE {0+}\r\n', b'PUTSCRIPT "x" {0+}\r\n',
+                                    b'GETSCRIPT {0+}\r\n', b'NOOP {0+}\r\n',
+                                    b'PUTSCRIPT {%d+}\r\n' % len(n) + n + b' {0+}\r\n', b'{0+}\r\n'])
+        # a command whose last string so far is a literal of at least one octet
+        head, payload = rng.choice([
+            (b'PUTSCRIPT ' + self.enc(n) + b' ', body), (b'CHECKSCRIPT ', body),
+            (b'PUTSCRIPT ', n), (b'GETSCRIPT ', n), (b'RENAMESCRIPT "a" ', n),
+            (b'DELETESCRIPT ', n), (b'HAVESPACE ', n), (b'SETACTIVE ', n)])
+        marker = b'{%d+}\r\n' % len(payload)
+        if how == 'marker':
+            return how, head + marker
+        return how, head + marker + payload[:rng.randrange(len(payload))]
 
     def _auth_script(self, cmd, args):
         """-> (first line, [replies to challenges])"""
@@ -581,25 +686,51 @@ class Exec:
         c, cmd, args = st['conn'], st['cmd'], st['args']
         self.nsteps += 1
         mark = len(self.log)
-        sent, out = self.issue(c, cmd, args)
-        obs = {'sent': sent, 'raw': out, 'resp': None, 'err': None,
-               'literals': list(self._literals), 'tag': getattr(self, '_tag', None)}
         conn = self.w.conns[c]
-        if not out:
-            obs['err'] = 'noresponse'
+        if cmd == 'Drop':
+            how, prefix = self.drop_prefix(self.force_drop)
+            out, spinning = self._drop(c, prefix)
+            obs = {'sent': [prefix + b'<EOF>'], 'raw': out, 'resp': None, 'err': None,
+                   'literals': [], 'tag': None, 'drop': how, 'spinning': spinning,
+                   'closed': conn.done, 'outcome': conn.outcome()}
+            if spinning or self.poisoned or not conn.done:
+                obs['err'] = 'spinning' if spinning else 'notclosed'
+                if conn.done:
+                    self._open(c)
+                return obs
+            if out:
+                try:
+                    obs['resp'] = SResp(out)
+                except Malformed as exc:
+                    obs['err'] = f'malformed: {exc}'
+                    return obs
+            self._open(c)
+        else:
+            try:
+                sent, out = self.issue(c, cmd, args)
+            except Spinning:
+                return {'sent': [self.log[-1][1] if self.log else b''], 'raw': b'',
+                        'resp': None, 'err': 'spinning', 'literals': [], 'tag': None,
+                        'closed': conn.done, 'outcome': conn.outcome()}
+            obs = {'sent': sent, 'raw': out, 'resp': None, 'err': None,
+                   'literals': list(self._literals), 'tag': getattr(self, '_tag', None)}
+            if not out:
+                obs['err'] = 'noresponse'
+                obs['closed'] = conn.done
+                obs['outcome'] = conn.outcome()
+                self.hung.add(c)
+                return obs
+            try:
+                obs['resp'] = SResp(out)
+            except Malformed as exc:
+                obs['err'] = f'malformed: {exc}'
+                return obs
             obs['closed'] = conn.done
-            obs['outcome'] = conn.outcome()
-            return obs
-        try:
-            obs['resp'] = SResp(out)
-        except Malformed as exc:
-            obs['err'] = f'malformed: {exc}'
-            return obs
-        obs['closed'] = conn.done
+        conn = self.w.conns[c]
         if cmd == 'Logout' and not conn.done:
             conn.eof()                      # the model continues on a fresh connection
             self.w.run(c)
-        if obs['resp'].cond == 'BYE' or conn.done:
+        if cmd != 'Drop' and (obs['resp'].cond == 'BYE' or conn.done):
             obs['outcome'] = conn.outcome()
             if conn.done:
                 self._open(c)
@@ -609,7 +740,7 @@ class Exec:
             want = [self.names[n] for n, v in st['post']['store'][u].items()
                     if v != 'none']
             obs['stores'][u] = self.probe_user(u, want)
-        which = MCONNS if cmd in ('Auth', 'AuthJunk', 'Unauth', 'Logout',
+        which = MCONNS if cmd in ('Auth', 'AuthJunk', 'Unauth', 'Logout', 'Drop',
                                   'StartTLS') else (c,)
         obs['owners'] = {k: self.probe_owner(k) for k in which}
         obs['glass'] = self.glass()
@@ -629,6 +760,18 @@ class Exec:
         out: list = []
         label = f'{cmd}({c}{"," if args else ""}{",".join(map(str, args))})'
         sent = _txt(b''.join(obs['sent']), 200)
+        if obs['err'] == 'spinning':
+            sig = 'EofAfterZeroLengthLiteralSpins' if obs.get('drop') == 'marker0' \
+                else f'Spins:{cmd}:{obs.get("drop", "")}'
+            out.append(Finding('violation', sig,
+                               f'{label}: after {sent!r} the server task loops for ever without '
+                               f'suspending (the whole event loop is blocked)',
+                               fatal=self.poisoned))
+            return out
+        if obs['err'] == 'notclosed':
+            out.append(Finding('drift', f'Drop:notclosed:{obs.get("drop")}',
+                               f'{label}: connection still open after end of stream following {sent!r}'))
+            return out
         if obs['err'] == 'noresponse':
             if any(_LITMARK_END.search(lit) for lit in obs.get('literals') or ()):
                 sig = 'LiteralEndsWithLiteralMarker'
@@ -647,6 +790,8 @@ class Exec:
                                f'({obs["err"]}): {_txt(obs["raw"])}'))
             return out
         r: SResp = obs['resp']
+        if r is None:                      # Drop without a word: allowed
+            r = _Silent()
         # 1. condition class
         if r.cond not in res['cls']:
             out.append(Finding('violation' if prop else 'drift', f'{area}:{cmd}:cond',
@@ -768,10 +913,10 @@ class Exec:
         return out
 
 
-def run_steps(steps, seed, name_fam=None, cont_fam=None, enc='mixed') -> dict:
+def run_steps(steps, seed, name_fam=None, cont_fam=None, enc='mixed', force_drop=None) -> dict:
     """Replay abstract steps (each with the result and post-state TLC
     computed) on a fresh real server."""
-    ex = Exec(seed, name_fam, cont_fam, enc)
+    ex = Exec(seed, name_fam, cont_fam, enc, force_drop)
     res = {'n': 0, 'findings': [], 'fams': [ex.name_fam, ex.cont_fam, enc],
            'switch': None, 'trace': [], 'mut_ok': 0, 'refused_unauth': 0,
            'cmds': {}}
@@ -791,7 +936,7 @@ def run_steps(steps, seed, name_fam=None, cont_fam=None, enc='mixed') -> dict:
                         break
                 if fs is None:
                     break
-            cond = obs['resp'].cond if obs['resp'] is not None else obs['err']
+            cond = obs['resp'].cond if obs['resp'] is not None else (obs['err'] or 'NONE')
             res['trace'].append([st['cmd'], st['conn']] + [str(a) for a in st['args']] + [cond])
             res['cmds'][st['cmd']] = res['cmds'].get(st['cmd'], 0) + 1
             if fs:
@@ -900,9 +1045,9 @@ _JOBS: list = []
 
 
 def _job(i):
-    steps, seed, nf, cf, enc = _JOBS[i]
+    steps, seed, nf, cf, enc = _JOBS[i][:5]
     try:
-        return run_steps(steps, seed, nf, cf, enc)
+        return run_steps(steps, seed, nf, cf, enc, *_JOBS[i][5:])
     except Exception as exc:           # harness problem, not a verdict
         import traceback
         return {'crash': f'{exc!r}\n{traceback.format_exc()}'}
@@ -956,7 +1101,8 @@ SCENARIOS = [
      'List(c1', 'Rename(c1,n2,n1', 'Delete(c1,n2', 'Rename(c1,n1,n2', 'List(c1', 'Get(c1,n2',
      'Put(c1,n2,s2', 'Get(c1,n2', 'List(c1', 'Delete(c1,n2', 'HaveSpace(c1,n1,small',
      'Put(c1,empty,s1', 'Get(c1,empty', 'SetActive(c1,empty', 'Delete(c1,n2', 'List(c1',
-     'Logout(c1', 'Get(c1,n2', 'Auth(c1,u1,good', 'List(c1'],
+     'Drop(c3', 'Drop(c1', 'Get(c1,n2', 'Auth(c1,u1,good', 'List(c1', 'Logout(c1', 'Get(c1,n1',
+     'Auth(c1,u1,good', 'Get(c1,n1'],
 ]
 
 
@@ -1003,8 +1149,9 @@ def _absorb(run: Run, r: dict, meta: dict, stats: dict) -> None:
             continue
         replay = {'check': 'C19', **meta, 'fams': r['fams'], 'upto': f.get('step'),
                   'finding': f['sig']}
-        steps, seed, nf, cf, enc = meta['_job']
+        steps, seed, nf, cf, enc = meta['_job'][:5]
         replay['exec_seed'] = seed
+        replay['force_drop'] = (list(meta['_job'][5:]) or [None])[0]
         replay['steps'] = steps[:f.get('step', len(steps)) + 1]
         replay['wire_log'] = r.get('log')
         replay.pop('_job', None)
@@ -1200,7 +1347,9 @@ def main(tier: str) -> int:
     for si, steps in enumerate(scen):
         for nf, cf in combos:
             for enc in ('quoted', 'literal'):
-                job = (steps, run.seed * 1000003 + 900000 + k, nf, cf, enc)
+                # the zero-length-literal cut is always exercised here (rare elsewhere)
+                job = (steps, run.seed * 1000003 + 900000 + k, nf, cf, enc,
+                       'marker0' if enc == 'literal' else None)
                 jobs.append(job)
                 metas.append({'stage': 'sweep', 'index': k, 'scenario': si, '_job': job})
                 k += 1
@@ -1228,7 +1377,7 @@ def replay(path: str) -> int:
     data = json.load(open(path))
     rp = data['replay']
     nf, cf, enc = rp['fams']
-    r = run_steps(rp['steps'], rp['exec_seed'], nf, cf, enc)
+    r = run_steps(rp['steps'], rp['exec_seed'], nf, cf, enc, rp.get('force_drop'))
     print(f'replayed {r["n"]} steps of {len(rp["steps"])} '
           f'(names={nf}, scripts={cf}, strings={enc})')
     for f in r['findings']:
